@@ -115,9 +115,11 @@ func genCase(t *rapid.T) Case {
 			st.Kind = "update"
 			cnt := rapid.IntRange(1, 5).Draw(t, fmt.Sprintf("nu%d", i))
 			seen := map[uuid.UUID]bool{}
+			// one update request in four may name an id more than once (merged in order)
+			dupOK := rapid.IntRange(0, 3).Draw(t, fmt.Sprintf("udup%d", i)) == 0
 			for j := 0; j < cnt; j++ {
 				id := rapid.SampledFrom(pool).Draw(t, fmt.Sprintf("u%d.%d", i, j))
-				if seen[id] {
+				if seen[id] && !dupOK {
 					continue
 				}
 				seen[id] = true
@@ -134,9 +136,10 @@ func genCase(t *rapid.T) Case {
 			st.Kind = "delete"
 			cnt := rapid.IntRange(1, 5).Draw(t, fmt.Sprintf("nd%d", i))
 			seen := map[uuid.UUID]bool{}
+			dupOK := rapid.IntRange(0, 3).Draw(t, fmt.Sprintf("ddup%d", i)) == 0
 			for j := 0; j < cnt; j++ {
 				id := rapid.SampledFrom(pool).Draw(t, fmt.Sprintf("del%d.%d", i, j))
-				if !seen[id] {
+				if !seen[id] || dupOK {
 					seen[id] = true
 					st.Ids = append(st.Ids, id)
 				}
@@ -343,9 +346,17 @@ func execCase(c Case) (res vt.Result) {
 				return fail("update failed: %v", err)
 			}
 			failedSet := map[uuid.UUID]string{}
+			requested, listed := map[uuid.UUID]int{}, map[uuid.UUID]int{}
+			for _, p := range st.Points {
+				requested[p.Id]++
+			}
+			if len(requested) < len(st.Points) {
+				rec.Count("update_requests_repeating_an_id", 1)
+			}
 			for _, f := range failed {
-				if _, dup := failedSet[f.Id]; dup {
-					return fail("id %s is listed twice as failed", f.Id)
+				listed[f.Id]++
+				if listed[f.Id] > requested[f.Id] {
+					return fail("id %s is listed %d times as failed, the request names it %d times", f.Id, listed[f.Id], requested[f.Id])
 				}
 				failedSet[f.Id] = f.Err
 			}
@@ -483,9 +494,15 @@ func execCase(c Case) (res vt.Result) {
 	return res
 }
 
+// countUnprocessed counts the distinct requested ids that no shard processed.
 func countUnprocessed(points []model.Point, m *model.Collection, unreachable func(uuid.UUID) bool) int {
 	n := 0
+	seen := map[uuid.UUID]bool{}
 	for _, p := range points {
+		if seen[p.Id] {
+			continue
+		}
+		seen[p.Id] = true
 		if _, ok := m.Docs[p.Id]; !ok || unreachable(p.Id) {
 			n++
 		}
